@@ -34,9 +34,10 @@ def file_bytes(n: int) -> bytes:
     return _FILES[n]
 
 
-def make_reader(g: dict[str, int]):
+def make_reader(g: dict[str, int], src=None):
     from dashlive.utils.buffered_reader import BufferedReader
-    src = io.BytesIO(file_bytes(g['flen']))
+    if src is None:
+        src = io.BytesIO(file_bytes(g['flen']))
     return BufferedReader(src, buffersize=g['bs'], offset=g['off'], size=g['size'],
                           max_buffers=g['maxb'])
 
@@ -170,6 +171,9 @@ def random_traces(rng: random.Random, count: int, steps: int, tid0: int) -> list
     lines: list[dict[str, Any]] = []
     flen = 150_000
     fdata = file_bytes(flen)
+    # one file object serves several windows one after the other (the way the fragments of one media file are read): every
+    # third trace opens its window on the file object of the previous trace, wherever that one left it
+    shared = None
     for t in range(count):
         bs = rng.choice([16384, 16384, 4096, 1000, 777])
         off = rng.choice([0, 1, bs - 1, bs, bs + 1, 20_000, 50_001, 33_333])
@@ -178,7 +182,13 @@ def random_traces(rng: random.Random, count: int, steps: int, tid0: int) -> list
         size = max(0, min(size, max_size))
         g = {'flen': flen, 'off': off, 'size': size, 'bs': bs, 'maxb': rng.choice([2, 3, 30])}
         tid = tid0 + t
-        rd = make_reader(g)
+        if t % 3 == 0 or shared is None:
+            shared = io.BytesIO(file_bytes(flen))
+        elif t % 3 == 2 and lines:
+            g['bs'] = lines and prev_g['bs']      # same block size as the previous window on this file object
+            g['size'] = max(0, min(g['size'], flen - g['off']))
+        rd = make_reader(g, shared)
+        prev_g = g
         lines.append({'tid': tid, 'ev': 'open', 'g': g, 'pos': 0})
         for _ in range(steps):
             kind = rng.random()
